@@ -87,6 +87,79 @@ def _task(i, spec, rss=None):
     return i * i + 1
 
 
+def _task_b(i, spec, rss=None):
+    """a second task function (other values for the same arguments)"""
+    v = _task(i, spec, rss=rss)
+    if rss is not None:
+        return ('b',) + tuple(v)
+    return 3 * i + 7
+
+
+def _run_call(call, recs, state):
+    """one call of parallelize / Analysis.do_trials in this process"""
+    import copy
+    from skyllh.core.multiproc import parallelize
+    if call.get('pause'):
+        time.sleep(call['pause'])
+    del recs[:]
+    os.environ['ICECUBE_SKYLLH_VERIF_PLAN'] = json.dumps(call.get('plan') or [])
+    n = call['ntasks']
+    specs = call.get('specs') or {}
+    key = json.dumps([n, specs], sort_keys=True)
+    if call.get('reuse_args') and key in state['args']:
+        args_list = state['args'][key]          # the SAME list object as in an earlier call
+    else:
+        args_list = [((i, specs.get(str(i), {})), {}) for i in range(n)]
+        state['args'][key] = args_list
+    snap = copy.deepcopy(args_list)
+    rss = None
+    if call.get('seed') is not None:
+        from skyllh.core.random import RandomStateService
+        rss = RandomStateService(seed=call['seed'])
+    func = _task_b if call.get('func') == 'b' else _task
+    t0 = time.time()
+    try:
+        if call.get('trials'):
+            import numpy as np
+            from skyllh.core.analysis import Analysis
+
+            class FakeAnalysis:
+                _cfg = None
+
+                def do_trial(self, rss, **kw):
+                    return np.array([(int(rss.random.randint(0, 2 ** 31)), float(rss.random.uniform()))],
+                                    dtype=[('v', np.int64), ('u', np.float64)])
+            rec = Analysis.do_trials(FakeAnalysis(), rss, n, ncpu=call['ncpu'])
+            r = [[int(a), float(b)] for a, b in zip(rec['v'], rec['u'])]
+        else:
+            r = parallelize(func, args_list, call['ncpu'], rss=rss)
+        out = {'kind': 'result', 'value': r}
+        state['kept'].append((r, json.dumps(r)))     # returned values are owned by the caller
+    except BaseException as ex:  # noqa
+        out = {'kind': 'exc', 'type': type(ex).__name__, 'msg': str(ex)[:300]}
+    out['wall'] = round(time.time() - t0, 4)
+    # arguments are inputs: the list, its tuples and dicts are unchanged (with rss the documented injection of
+    # the `rss` keyword into the kwargs dicts is set aside and reported separately)
+    injected = False
+    if len(args_list) == len(snap):
+        for (_, kw) in args_list:
+            if rss is not None and 'rss' in kw:
+                injected = True
+                del kw['rss']
+    out['args_unchanged'] = bool(args_list == snap)
+    out['rss_injected'] = injected
+    order = []
+    nrec = 0
+    for name, msg in recs:
+        if name == 'skyllh.core.multiproc' and msg.startswith('Beginning of worker process (pid='):
+            order.append(int(msg.split('pid=')[1].split(')')[0]))
+        if name == 'skyllh.verif.c09':
+            nrec += 1
+    out['order'] = order
+    out['nrec'] = nrec
+    return out
+
+
 def _child(case, wfd):
     import logging
     os.setsid()
@@ -96,8 +169,6 @@ def _child(case, wfd):
     except OSError:
         pass
     os.environ['ICECUBE_SKYLLH_VERIF'] = '1'
-    os.environ['ICECUBE_SKYLLH_VERIF_PLAN'] = json.dumps(case.get('plan') or [])
-    from skyllh.core.multiproc import parallelize
     recs = []
 
     class H(logging.Handler):
@@ -109,44 +180,17 @@ def _child(case, wfd):
     lg = logging.getLogger('skyllh')
     lg.setLevel(logging.DEBUG)
     lg.addHandler(H())
-    n = case['ntasks']
-    specs = case.get('specs') or {}
-    args_list = [((i, specs.get(str(i), {})), {}) for i in range(n)]
-    rss = None
-    if case.get('seed') is not None:
-        from skyllh.core.random import RandomStateService
-        rss = RandomStateService(seed=case['seed'])
-    t0 = time.time()
+    state = {'args': {}, 'kept': []}
+    calls = case['seq'] if 'seq' in case else [case]
     try:
-        if case.get('trials'):
-            import numpy as np
-            from skyllh.core.analysis import Analysis
-
-            class FakeAnalysis:
-                _cfg = None
-
-                def do_trial(self, rss, **kw):
-                    return np.array([(int(rss.random.randint(0, 2 ** 31)), float(rss.random.uniform()))],
-                                    dtype=[('v', np.int64), ('u', np.float64)])
-            rec = Analysis.do_trials(FakeAnalysis(), rss, n, ncpu=case['ncpu'])
-            r = [[int(a), float(b)] for a, b in zip(rec['v'], rec['u'])]
-        else:
-            r = parallelize(_task, args_list, case['ncpu'], rss=rss)
-        out = {'kind': 'result', 'value': r}
-    except BaseException as ex:  # noqa
-        out = {'kind': 'exc', 'type': type(ex).__name__, 'msg': str(ex)[:300]}
-    out['wall'] = round(time.time() - t0, 4)
-    order = []
-    nrec = 0
-    for name, msg in recs:
-        if name == 'skyllh.core.multiproc' and msg.startswith('Beginning of worker process (pid='):
-            order.append(int(msg.split('pid=')[1].split(')')[0]))
-        if name == 'skyllh.verif.c09':
-            nrec += 1
-    out['order'] = order
-    out['nrec'] = nrec
-    try:
-        os.write(wfd, (json.dumps(out) + '\n').encode())
+        for ci, call in enumerate(calls):
+            out = _run_call(call, recs, state)
+            if ci == len(calls) - 1:
+                # results of earlier calls must not have been changed by later calls
+                out['kept_changed'] = [k for k, (r, js) in enumerate(state['kept']) if json.dumps(r) != js]
+                ids = [id(r) for r, _ in state['kept']]
+                out['kept_aliased'] = len(set(ids)) != len(ids)
+            os.write(wfd, (json.dumps(out) + '\n').encode())
     finally:
         os._exit(0)
 
@@ -159,7 +203,7 @@ def runner_main(watchdog):
         if not line:
             continue
         case = json.loads(line)
-        if case.get('trials'):
+        if case.get('trials') or any(c.get('trials') for c in case.get('seq', [])):
             import skyllh.core.analysis  # noqa: F401  (import before the fork, once)
         r, w = os.pipe()
         pid = os.fork()
@@ -173,7 +217,8 @@ def runner_main(watchdog):
         deadline = time.time() + watchdog
         data = b''
         hang = False
-        while b'\n' not in data:
+        need = len(case['seq']) if 'seq' in case else 1
+        while data.count(b'\n') < need:
             rem = deadline - time.time()
             if rem <= 0:
                 hang = True
@@ -199,12 +244,18 @@ def runner_main(watchdog):
         except ChildProcessError:
             pass
         os.close(r)
-        if hang:
+        lines = data.split(b'\n')[:-1]
+        if 'seq' in case:
+            outs = [json.loads(l) for l in lines[:need]]
+            if len(outs) < need:
+                outs.append({'kind': 'hang', 'watchdog': watchdog} if hang else {'kind': 'crash'})
+            out = {'kind': 'seq', 'calls': outs}
+        elif hang:
             out = {'kind': 'hang', 'watchdog': watchdog}
-        elif b'\n' not in data:
+        elif not lines:
             out = {'kind': 'crash'}
         else:
-            out = json.loads(data.split(b'\n')[0])
+            out = json.loads(lines[0])
         sys.stdout.write(json.dumps(out) + '\n')
         sys.stdout.flush()
 
@@ -327,7 +378,14 @@ def mk_case(ncpu, ntasks, kind, slow=(), late=(), nlog=0, faults=(), seed=None, 
 
 
 def expected_list(case):
+    if case.get('func') == 'b':
+        return [3 * i + 7 for i in range(case['ntasks'])]
     return [i * i + 1 for i in range(case['ntasks'])]
+
+
+def vkind(case, kind):
+    """violation kind; calls that are part of a call sequence in one process get their own signatures"""
+    return ('sequence:' + kind) if case.get('_seq') else kind
 
 
 def triggered(case):
@@ -392,7 +450,8 @@ def model_exprs_for(case, order, rng, nvariants):
         for f in triggered(case):
             if f['kind'] == 'raise':
                 raising.append(offs[f['pid']] + f['task'])
-    fn = f'(fun x => if existsb (Z.eqb x) {zlist(raising)} then Err RuntimeError else Ok (x * x + 1))'
+    body = '3 * x + 7' if case.get('func') == 'b' else 'x * x + 1'
+    fn = f'(fun x => if existsb (Z.eqb x) {zlist(raising)} then Err RuntimeError else Ok ({body}))'
     args = zlist(range(n))
     head = f'parallelize {fn} {args} ({k})'
     if k <= 1 or n == 0:
@@ -437,15 +496,36 @@ def canon_model(v):
 
 # ---- predicates (independent of the model)
 
+PUBKEYS = ('ncpu', 'ntasks', 'kind', 'slow', 'late', 'nlog', 'faults', 'seed', 'trials', 'bulk', 'func', 'pause',
+           'reuse_args', '_seq', 'plan', 'specs')
+
+
+def pubcase(case):
+    return {k: case[k] for k in PUBKEYS if k in case}
+
+
 def predicates(ctx, case, obs, oc):
-    pub = {k: case[k] for k in ('ncpu', 'ntasks', 'kind', 'slow', 'late', 'nlog', 'faults', 'seed', 'trials', 'bulk', 'plan', 'specs')}
+    pub = pubcase(case)
     if oc[0] == 'Broken':
         ctx.broken.append({'kind': 'harness', 'error': f'runner gave no observation: {obs}'})
         return
     if oc[0] == 'Hang':
-        ctx.violation(SITE, 'hang', f"no return and no exception within {obs.get('watchdog')} s",
+        ctx.violation(SITE, vkind(case, 'hang'), f"no return and no exception within {obs.get('watchdog')} s",
                       case=pub, impl=oc, predicate='the call ends (list or exception) within bounded time')
         return
+    # history probes (need no model): the arguments are inputs, returned lists are owned by the caller
+    if obs.get('args_unchanged') is False:
+        ctx.violation(SITE, vkind(case, 'args-list-modified'), 'args_list or one of its elements was changed by the call',
+                      case=pub, impl=oc, predicate='args_list and its (args, kwargs) elements are unchanged after the call')
+    if obs.get('kept_changed'):
+        ctx.violation(SITE, vkind(case, 'result-modified-by-later-call'),
+                      f"the list returned by call(s) {obs['kept_changed']} of the sequence changed during a later call",
+                      case=pub, impl=oc, predicate='a returned list is owned by the caller')
+    if obs.get('kept_aliased'):
+        ctx.violation(SITE, vkind(case, 'result-object-shared-between-calls'), 'two calls returned the same list object',
+                      case=pub, impl=oc, predicate='a returned list is owned by the caller')
+    if obs.get('rss_injected'):
+        ctx.count('rss-keyword-injected-into-caller-kwargs')
     n, k = case['ntasks'], case['ncpu']
     tf = triggered(case)
     if case['seed'] is not None:
@@ -454,24 +534,26 @@ def predicates(ctx, case, obs, oc):
         if n == 0:
             return   # the empty argument list returns [] before ncpu is looked at (fix ac3e25b)
         if oc[0] != 'Fail':
-            ctx.violation(SITE, 'bad-ncpu-accepted', 'ncpu < 1 did not raise', case=pub, impl=oc)
+            ctx.violation(SITE, vkind(case, 'bad-ncpu-accepted'), 'ncpu < 1 did not raise', case=pub, impl=oc)
         return
     if not tf:
         if oc[0] == 'Done':
             if oc[1] != expected_list(case):
-                ctx.violation(SITE, 'partial-or-wrong-result', 'returned list differs from [g(x) for x in args]',
+                ctx.violation(SITE, vkind(case, 'partial-or-wrong-result'),
+                              'returned list differs from [g(x) for x in args]',
                               case=pub, impl=oc, model=expected_list(case),
                               predicate='one result per input, in input order')
         elif n == 0:
-            ctx.violation(SITE, 'empty-args-raise', 'raises for an empty argument list instead of returning []',
+            ctx.violation(SITE, vkind(case, 'empty-args-raise'),
+                          'raises for an empty argument list instead of returning []',
                           case=pub, impl=oc, predicate='one result per input (zero inputs -> [])')
         else:
-            ctx.violation(SITE, 'error-without-fault', 'raised although no task raised and no process died',
+            ctx.violation(SITE, vkind(case, 'error-without-fault'), 'raised although no task raised and no process died',
                           case=pub, impl=oc, predicate='one result per input, in input order')
     else:
         if oc[0] == 'Done':
             kind = 'partial-or-wrong-result' if oc[1] != expected_list(case) else 'returns-despite-fault'
-            ctx.violation(SITE, kind, 'returned a list although a task raised / a process died',
+            ctx.violation(SITE, vkind(case, kind), 'returned a list although a task raised / a process died',
                           case=pub, impl=oc, predicate='a fault ends the call with an error')
 
 
@@ -484,6 +566,8 @@ def rss_oracle(case):
     def one(i, r):
         if case.get('trials'):
             return [int(r.random.randint(0, 2 ** 31)), float(r.random.uniform())]
+        if case.get('func') == 'b':
+            return list(_task_b(i, {}, rss=r))
         return list(_task(i, {}, rss=r))
     if k == 1:
         return [one(i, rss) for i in range(n)]
@@ -588,6 +672,97 @@ def gen_cases(ctx):
     return cases
 
 
+def gen_sequences(ctx):
+    """call SEQUENCES executed in ONE process (module state, queues, buffers, memos survive between the calls):
+    a failed call of every fault kind followed by fault-free calls with the same / another ncpu / another task
+    function, repeated calls on the same args_list object, alternating functions, changing ncpu, the empty list in
+    between, rss and do_trials repeated.  Every call is judged like a call in a fresh process."""
+    rng = ctx.rng
+    th = ctx.thorough()
+
+    def C(k, n, kind='free', **kw):
+        extra = {x: kw.pop(x) for x in ('func', 'pause', 'reuse_args') if x in kw}
+        c = mk_case(k, n, kind, **kw)
+        c.update(extra)
+        return c
+    kinds = [('raise', 'hook', 1), ('raise', 'func', 1), ('exit', 'hook', 1), ('exit', 'func', 3),
+             ('exit', 'hook', 0), ('kill', 'func', -9), ('after', 'hook', 1), ('after', 'hook', 0)]
+    seqs = []
+    shapes = [(3, 5)] if not th else [(2, 3), (3, 5), (4, 6), (5, 7)]
+    for (k, n) in shapes:
+        cs = split_sizes(n, k)
+        for (fk, ch, code) in kinds:
+            p = rng.randrange(1, k)
+            f = {'pid': p, 'task': None if fk == 'after' else rng.randrange(cs[p]), 'kind': fk, 'code': code,
+                 'channel': ch}
+            for nm, slow in (('failed-then-free/others-slow', [q for q in range(1, k) if q != p]),
+                             ('failed-then-free/victim-slow', [p])):
+                if not th and nm.endswith('victim-slow') and rng.random() < 0.5:
+                    continue
+                seqs.append({'name': nm, 'seq': [
+                    C(k, n, 'faulty', slow=slow, faults=[f], nlog=1),
+                    C(k, n, pause=0.2, nlog=1),
+                    C(max(2, k - 1), n),
+                    C(k, n, func='b', slow=[rng.randrange(k)]),
+                    C(k + 1, n, slow=[1]),
+                    C(k, n, reuse_args=True, nlog=1)]})
+        seqs.append({'name': 'master-raise-then-free', 'seq': [
+            C(k, n, 'faulty', faults=[{'pid': 0, 'task': 0, 'kind': 'raise', 'channel': 'func'}], slow=[1]),
+            C(k, n, pause=0.15), C(k, n - 1), C(k, n, func='b')]})
+    for (k, n) in ((3, 7), (1, 4), (2, 2)) if not th else [(k, n) for k in (1, 2, 3, 5) for n in (1, 4, 9)]:
+        seqs.append({'name': 'repeat-same-args', 'seq': [C(k, n), C(k, n, reuse_args=True), C(k, n, reuse_args=True)]})
+        seqs.append({'name': 'alternate-functions', 'seq': [C(k, n), C(k, n, func='b', reuse_args=True),
+                                                            C(k, n, reuse_args=True), C(k, n, func='b', reuse_args=True)]})
+    for n in ((9,) if not th else (2, 9, 14)):
+        seqs.append({'name': 'changing-ncpu', 'seq': [C(5, n), C(3, n, reuse_args=True), C(1, n, reuse_args=True),
+                                                      C(4, n, reuse_args=True), C(8, n, reuse_args=True),
+                                                      C(5, n, reuse_args=True, func='b'), C(2, n, reuse_args=True)]})
+        seqs.append({'name': 'changing-ntasks', 'seq': [C(3, n), C(3, n + 3), C(3, 1), C(3, n), C(1, n + 3), C(1, 2)]})
+    seqs.append({'name': 'empty-in-between', 'seq': [C(3, 4), C(3, 0), C(3, 4, reuse_args=True), C(1, 0), C(1, 4)]})
+    seqs.append({'name': 'bulk-then-free', 'seq': [C(2, 2, bulk=[1], late=[1]), C(2, 2), C(2, 3, func='b')]})
+    for _ in range(ctx.budget(2, 10)):
+        k, n = rng.randint(1, 4), rng.randint(2, 9)
+        s1, s2 = rng.randrange(2 ** 31), rng.randrange(2 ** 31)
+        seqs.append({'name': 'rss-repeat', 'seq': [
+            C(k, n, 'rss', seed=s1), C(k, n, 'rss', seed=s1, reuse_args=True), C(k, n, reuse_args=True),
+            C(k, n, 'rss', seed=s1, func='b', reuse_args=True), C(k, n, 'rss', seed=s2, reuse_args=True),
+            C(k + 1, n, 'rss', seed=s1), C(k, n, 'rss', seed=s1, slow=[0])]})
+        seqs.append({'name': 'do_trials-repeat', 'seq': [
+            C(k, n, 'do_trials', seed=s1, trials=True), C(k, n, 'do_trials', seed=s1, trials=True),
+            C(k + 1, n, 'do_trials', seed=s2, trials=True), C(k, n, 'do_trials', seed=s1, trials=True)]})
+    for _ in range(ctx.budget(0, 40)):      # random sequences
+        calls = []
+        for _ in range(rng.randint(3, 6)):
+            k, n = rng.randint(1, 5), rng.randint(0, 9)
+            kw = {'slow': rng.sample(range(k), rng.randint(0, k)), 'func': rng.choice(['a', 'b'])}
+            if k > 1 and n >= k and rng.random() < 0.3:
+                p = rng.randrange(1, k)
+                fk, ch, code = rng.choice(kinds)
+                kw['faults'] = [{'pid': p, 'task': None if fk == 'after' else 0, 'kind': fk, 'code': code, 'channel': ch}]
+            calls.append(C(k, n, pause=rng.choice([0, 0, 0.1]), **kw))
+        seqs.append({'name': 'random', 'seq': calls})
+    return seqs
+
+
+def judge_sequences(ctx, seqs, obs, nvariants):
+    cases, flat = [], []
+    for sq, o in zip(seqs, obs):
+        ctx.count('sequence:' + sq['name'])
+        if o.get('kind') != 'seq':
+            ctx.broken.append({'kind': 'harness', 'error': f"sequence runner gave no observation: {o}"})
+            continue
+        for ci, co in enumerate(o['calls']):
+            c = dict(sq['seq'][ci])
+            c['_seq'] = {'name': sq['name'], 'index': ci,
+                         'earlier_calls': [{k: x.get(k) for k in ('ncpu', 'ntasks', 'faults', 'slow', 'func', 'seed',
+                                                                  'reuse_args', 'pause', 'trials', 'nlog', 'bulk')}
+                                           for x in sq['seq'][:ci]]}
+            c['kind'] = f"seq:{sq['name']}#{ci}"
+            cases.append(c)
+            flat.append(co)
+    judge(ctx, cases, flat, nvariants)
+
+
 def judge(ctx, cases, obs, nvariants):
     """predicates + model comparison for observed cases"""
     exprs, owners = [], []
@@ -595,7 +770,7 @@ def judge(ctx, cases, obs, nvariants):
     for case, o in zip(cases, obs):
         oc = observe_class(case, o)
         classes.append(oc)
-        ctx.case({k: case[k] for k in ('ncpu', 'ntasks', 'slow', 'late', 'nlog', 'faults', 'seed', 'bulk')},
+        ctx.case({k: case.get(k) for k in ('ncpu', 'ntasks', 'slow', 'late', 'nlog', 'faults', 'seed', 'bulk', 'func', '_seq')},
                  nontrivial=case['ntasks'] > 0)
         ctx.count('kind:' + case['kind'])
         ctx.count('outcome:' + (oc[1] if oc[0] == 'Fail' else oc[0]))
@@ -621,15 +796,15 @@ def judge(ctx, cases, obs, nvariants):
     by = {}
     for case, o in zip(cases, obs):
         if case['seed'] is not None:
-            by.setdefault((case['seed'], case['ncpu'], case['ntasks'], case.get('trials')), []).append((case, o))
+            by.setdefault((case['seed'], case['ncpu'], case['ntasks'], case.get('trials'), case.get('func')), []).append((case, o))
     for key, lst in by.items():
         vals = [json.dumps(o.get('value')) if o.get('kind') == 'result' else None for _, o in lst]
         if any(v is None for v in vals):
-            ctx.violation(SITE, 'rss-run-failed', 'fault-free run with rss did not return',
+            ctx.violation(SITE, vkind(lst[0][0], 'rss-run-failed'), 'fault-free run with rss did not return',
                           case=lst[0][0], impl=[o for _, o in lst])
             continue
         if len(set(vals)) != 1:
-            ctx.violation(SITE, 'nondeterministic-rss', 'equal seed and ncpu gave different lists',
+            ctx.violation(SITE, vkind(lst[0][0], 'nondeterministic-rss'), 'equal seed and ncpu gave different lists',
                           case=lst[0][0], impl=vals, predicate='deterministic for a given seed and worker count')
         try:
             want = json.dumps(rss_oracle(lst[0][0]))
@@ -666,8 +841,7 @@ def judge(ctx, cases, obs, nvariants):
             b = [m[0]] if m[0] != 'Done' else m
         if a != b and oi not in seen:
             seen[oi] = True
-            ctx.disagree(SITE, {k: case[k] for k in ('ncpu', 'ntasks', 'kind', 'slow', 'late', 'nlog', 'faults',
-                                                     'seed', 'bulk', 'plan', 'specs')}, oc, m,
+            ctx.disagree(SITE + ('.sequence' if case.get('_seq') else ''), pubcase(case), oc, m,
                          'observed outcome class differs from the model on a schedule of the same plan: ' + e[:600])
 
 
@@ -778,6 +952,9 @@ def run(ctx):
         ctx.sample({'ncpu': c['ncpu'], 'ntasks': c['ntasks'], 'kind': c['kind'], 'slow': c['slow'],
                     'faults': c['faults'], 'plan': c['plan'], 'observed': {k: o.get(k) for k in ('kind', 'type', 'msg', 'order', 'wall')}})
     judge(ctx, cases, obs, nvariants=ctx.budget(1, 3))
+    seqs = gen_sequences(ctx)
+    sobs = run_impl(seqs, watchdog, nproc=nproc)
+    judge_sequences(ctx, seqs, sobs, nvariants=1)
     if ctx.model_ok:
         check_array_split(ctx)
 
@@ -787,6 +964,20 @@ def replay(ctx, rp):
     if 'ncpu' not in case or 'ntasks' not in case:
         ctx.notes.append('replay file has no runnable case (broken obligation): running the normal check')
         return run(ctx)
+    def rebuild(d):
+        c = mk_case(d['ncpu'], d['ntasks'], d.get('kind', 'replay'), slow=d.get('slow') or (), late=d.get('late') or (),
+                    nlog=d.get('nlog') or 0,
+                    faults=[{k: v for k, v in f.items() if k != 'triggers'} for f in d.get('faults') or []],
+                    seed=d.get('seed'), trials=d.get('trials', False), bulk=d.get('bulk') or ())
+        for x in ('func', 'pause', 'reuse_args'):
+            if d.get(x) is not None:
+                c[x] = d[x]
+        return c
+    if case.get('_seq'):
+        sq = {'name': case['_seq']['name'], 'seq': [rebuild(d) for d in case['_seq']['earlier_calls']] + [rebuild(case)]}
+        sobs = run_impl([sq], ctx.budget(20, 60), nproc=1)
+        ctx.sample({'sequence': sq['name'], 'observed': sobs[0]})
+        return judge_sequences(ctx, [sq], sobs, nvariants=2)
     c = mk_case(case['ncpu'], case['ntasks'], case.get('kind', 'replay'), slow=case.get('slow', ()),
                 late=case.get('late', ()), nlog=case.get('nlog', 0),
                 faults=[{k: v for k, v in f.items() if k != 'triggers'} for f in case.get('faults', [])],
